@@ -28,6 +28,7 @@ def make_tree():
     od = OrderedDict()
     od['q'] = L[4]
     od['p'] = L[5]
+    od.move_to_end('q')  # iteration order (p, q) now differs from the order of the underlying hash table
     tree = {'b': L[0], 'a': L[1], 'c': inner, 'o': od, 2: [L[6]], 1: (L[7],)}
     return tree, L
 
@@ -35,9 +36,9 @@ def make_tree():
 # expected leaf orders
 def expected_order(insertion):
     if insertion:
-        return (0, 1, 2, 3, 4, 5, 6, 7)
+        return (0, 1, 2, 3, 5, 4, 6, 7)
     # sorted with type-name fallback: ints (builtins.int) before strs (builtins.str): 1, 2, 'a', 'b', 'c', 'o'
-    return (7, 6, 1, 0, 3, 2, 4, 5)
+    return (7, 6, 1, 0, 3, 2, 5, 4)
 
 
 class ModeSystem(explore.System):
@@ -112,7 +113,7 @@ class ModeSystem(explore.System):
             o['od_entries'] = tuple(spec.child(spec.entries().index('o')).entries())
             rebuilt = optree.tree_unflatten(spec, leaves)
             o['roundtrip'] = (list(rebuilt) == list(tree) and list(rebuilt['c']) == list(tree['c'])
-                              and type(rebuilt['c']) is defaultdict and list(rebuilt['o']) == ['q', 'p']
+                              and type(rebuilt['c']) is defaultdict and list(rebuilt['o']) == ['p', 'q']
                               and all(a is b for a, b in zip(optree.tree_leaves(rebuilt, namespace=ns), leaves)))
             o['treespec_dict'] = tuple(optree.treespec_dict({'b': leafspec, 'a': leafspec}, namespace=ns).entries())
             o['treespec_defaultdict'] = tuple(
@@ -144,7 +145,7 @@ class ModeSystem(explore.System):
                 'flatten': order, 'with_path': order, 'iter': order, 'paths_top': top, 'spec_eq': True,
                 'entries': ('b', 'a', 'c', 'o', 2, 1) if ins else (1, 2, 'a', 'b', 'c', 'o'),
                 'dd_entries': ('z', 'y') if ins else ('y', 'z'),
-                'od_entries': ('q', 'p'),
+                'od_entries': ('p', 'q'),
                 'roundtrip': True,
                 'treespec_dict': ('b', 'a') if ins else ('a', 'b'),
                 'treespec_defaultdict': ('b', 'a') if ins else ('a', 'b'),
